@@ -96,7 +96,9 @@ def history(task):
                 for i in range(nops):
                     if layer == 1:
                         seq[0] += 1
-                        txt = 'rec-%d-%d-%s' % (life, seq[0], 'x' * rng.choice([0, 10, 300, 5000]))
+                        txt = 'rec-%d-%d-%s' % (life, seq[0], 'x' * (rng.choice([0, 10, 300, 5000]) if rng.random() > 0.06 else rng.choice([1_100_000, 2_500_000, 6_000_000])))
+                        if len(txt) > 1_000_000:
+                            stat('records_over_1MiB')
                         if kill_at == i and rng.random() < 0.5:
                             # kill while the append is in flight
                             inflight = txt
@@ -118,7 +120,7 @@ def history(task):
                             for j in range(n):
                                 seq[0] += 1
                                 kind = rng.choice(['normal', 'normal', 'blank', 'membership'])
-                                ents.append([rng.randint(1, 3), last + 1 + j, kind, 'cmd-%d' % seq[0] if kind == 'normal' else ([[1, 2, 3][:rng.randint(1, 3)]] if kind == 'membership' else None)])
+                                ents.append([rng.randint(1, 3), last + 1 + j, kind, ('cmd-%d' % seq[0] + ('' if rng.random() > 0.04 else 'x' * rng.choice([1_100_000, 2_500_000]))) if kind == 'normal' else ([[1, 2, 3][:rng.randint(1, 3)]] if kind == 'membership' else None)])
                             op = {'op': 'store_append', 'entries': [[e[0], e[1], e[2], (e[3][0] if e[2] == 'membership' else e[3])] for e in ents]}
                             op_model = {'op': 'store_append', 'entries': [[e[0], e[1], e[2], (e[3] if e[2] != 'membership' else e[3])] for e in ents]}
                         elif k in ('truncate', 'purge'):
